@@ -144,6 +144,11 @@ func (e *c17Env) Snapshot(shardID uint64) error {
 	if err != nil {
 		return err
 	}
+	// The store disables snapshots of shards it considers idle and re-enables them on the next
+	// write (Store.WriteToShard). The engine's own snapshot loop never runs while they are
+	// disabled; calling WriteSnapshot in that state would fail half-way and leave the cache
+	// snapshot in flight, a state the real system does not produce this way. Do what a write does.
+	sh.SetCompactionsEnabled(true)
 	return eng.(*tsm1.Engine).WriteSnapshot()
 }
 
